@@ -53,6 +53,7 @@ def die_in(draw, invalid=False):
     c["flat"] = draw(st.booleans())
     c["mut"] = None
     # a refinement request the library refuses (aspect ratio <= sqrt 2, or no region asked for), made before the regions are read
+    c["alloc_refined"] = (not invalid) and draw(_i(0, 3)) == 0
     c["refused"] = None if invalid else draw(st.sampled_from([None, None, [1.2, 4], [3, 0], [1.0, 1], [1.415, 3], [2, -1]]))
     if invalid:
         W, H = c["W"], c["H"]
@@ -269,6 +270,23 @@ def run_valid(c):
             if sorted(key(r) for r in getattr(die2, name)) != sorted(key(r) for r in getattr(die, name)):
                 raise Violation("a second Die of the same description object reports different %s" % name, "second-use-differs")
         cls.append("description-used-twice")
+    # the die's rectangles are handed to an allocation (as create_initial_allocation does) which is then refined: the cells are cut,
+    # the die still reports the regions it reported
+    if c.get("alloc_refined"):
+        from frame.allocation.allocation import Allocation
+        refinable, fixed_rs = die.floorplanning_rectangles()
+        if refinable:
+            try:
+                al = Allocation([(r, {"X": 0.5}, 0) for r in refinable] + [(r, {"F%d" % k: 1.0}, 0) for k, r in enumerate(fixed_rs)])
+                al.refine(0.75, 2).uniform_refinement_depth()
+            except Exception as e:
+                raise Violation("an allocation over the die's rectangles could not be built and refined: %s: %s\n%s" % (type(e).__name__, e, D.die_text(c)),
+                                "allocation-over-the-die-raised")
+            now = {name: sorted(key(r) for r in getattr(die, name)) for name in state0}
+            if now != state0:
+                raise Violation("after an allocation over the die's rectangles was refined the die reports other regions: %s were %s\n%s" % (
+                    {k: len(v) for k, v in now.items()}, {k: len(v) for k, v in state0.items()}, D.die_text(c)), "allocation-refinement-alters-the-die")
+            cls.append("allocation-over-the-die-refined")
     # a request the die refuses leaves it as it was
     if c.get("refused"):
         try:
@@ -329,7 +347,8 @@ def subchecks():
         Sub("valid", run_valid, strategy=die_in(False), n_quick=12000, n_thorough=300000, fuzz_thorough=6000,
             required=("tree", "flow", "block", "file", "wxh", "touches-border", "regions-touch", "with-fixed",
                       "float-rounding", "decimal-unit", "single-region-without-list", "netlist-with-soft-modules",
-                      "tiny-module-in-netlist", "large-die", "description-used-twice", "netlist-with-movable-hard-modules", "netlist-changed-after-the-die-was-built", "refused-refinement-request")),
+                      "tiny-module-in-netlist", "large-die", "description-used-twice", "netlist-with-movable-hard-modules", "netlist-changed-after-the-die-was-built", "refused-refinement-request",
+                      "allocation-over-the-die-refined")),
         Sub("invalid", run_invalid, strategy=die_in(True), n_quick=6000, n_thorough=120000, fuzz_thorough=3000,
             required=("mut-overlap", "mut-outside", "mut-thin-overlap")),
     ]
